@@ -113,7 +113,7 @@ class UnionSubcaseCoercerProvider(NormTypeCoercerProvider):
             dst_args_set = set(map(strip_tags, norm_dst.args))
             if src_args_set.issubset(dst_args_set):
                 return as_is_stub_with_ctx
-        elif norm_src.origin in [strip_tags(arg).origin for arg in norm_dst.args]:
+        elif strip_tags(norm_src) in [strip_tags(arg) for arg in norm_dst.args]:
             return as_is_stub_with_ctx
         raise CannotProvide
 
